@@ -433,4 +433,11 @@ theorem map_list_value_means_no_error (n : Nat) (f a b r : Val) (s s' : St)
     ∃ v s1 t, (applyFn n f [a]).run.run s = (.ok v, s1) ∧ (mapList n f b).run.run s1 = (.ok t, s') ∧ r = .pair v t :=
   mapList_ok_inv n f a b r s s' h
 
+/-- the same for arrays (`MapArray`, the other loop): a callback failing on element `i` is the
+outcome of the map from `i` on, hence — through `mapArr_step_run` for the earlier, successful
+elements — of the whole map -/
+theorem map_array_elem_error_is_outcome (k : Nat) (f : Val) (r i n : Nat) (hi : ¬ i ≥ n) (s s1 : St) (e : Fault)
+    (h : (applyFn k f [(s.heap.get r).getD i .nil]).run.run s = (.error e, s1)) :
+    (mapArr (k+1) f r i n).run.run s = (.error e, s1) := mapArr_elem_error k f r i n hi s s1 e h
+
 end ZygoVerif.C05
